@@ -38,6 +38,7 @@ type callRec struct {
 	N       int
 	Payload string
 	Outcome string
+	Phase   int // 1: the explored bulk, 2: the follow-up bulk sent to healthy stores through the same client
 }
 
 type bulkWorld struct {
@@ -45,6 +46,7 @@ type bulkWorld struct {
 	calls  []callRec
 	nth    map[string]int
 	cancel context.CancelFunc // cancels the request context (outcome "cancelled")
+	phase  int
 }
 
 type fakeStore struct {
@@ -60,9 +62,15 @@ func (f *fakeStore) Bulk(ctx context.Context, in *pb.BulkRequest, _ ...grpc.Call
 	f.w.mu.Unlock()
 	h := sha256.Sum256(append(append([]byte(fmt.Sprint(in.Count, "|")), in.Docs...), in.Metas...))
 	// ok / store error / call deadline / the client goes away: the REQUEST context is cancelled during the call
-	out := []string{"ok", "error", "deadline", "cancelled"}[vdec.Ask(fmt.Sprintf("bulk/%s/#%d", f.host, n), 4)]
 	f.w.mu.Lock()
-	f.w.calls = append(f.w.calls, callRec{Host: f.host, N: n, Payload: fmt.Sprintf("%x", h[:6]), Outcome: out})
+	phase := f.w.phase
+	f.w.mu.Unlock()
+	out := "ok" // the follow-up bulk meets healthy stores: nothing is asked
+	if phase == 1 {
+		out = []string{"ok", "error", "deadline", "cancelled"}[vdec.Ask(fmt.Sprintf("bulk/%s/#%d", f.host, n), 4)]
+	}
+	f.w.mu.Lock()
+	f.w.calls = append(f.w.calls, callRec{Host: f.host, N: n, Payload: fmt.Sprintf("%x", h[:6]), Outcome: out, Phase: phase})
 	f.w.mu.Unlock()
 	switch out {
 	case "error":
@@ -121,12 +129,12 @@ func setBreakers(tp topo, attempt int) {
 // runC09 performs one StoreDocuments call in the current explorer execution and judges it.
 func runC09(r *vlib.Run, tp topo, assign map[string]int) func() {
 	var w *bulkWorld
-	var err error
+	var err, err2 error
 	payloadDocs, payloadMetas := []byte("docs-block-bytes"), []byte("metas-block-bytes")
 	body := func() {
 		ctx, cancel := context.WithCancel(context.Background())
 		defer cancel()
-		w = &bulkWorld{nth: map[string]int{}, cancel: cancel}
+		w = &bulkWorld{nth: map[string]int{}, cancel: cancel, phase: 1}
 		vrand.ResetSeq()
 		clients := map[string]pb.StoreApiClient{}
 		hot := &stores.Stores{Shards: hosts("hot", tp.HotShards, tp.HotReplicas)}
@@ -144,6 +152,20 @@ func runC09(r *vlib.Run, tp topo, assign map[string]int) func() {
 		}
 		c := bulk.NewSeqDBClient(hot, cold, breakerCfg, clients)
 		err = c.StoreDocuments(ctx, 2, payloadDocs, payloadMetas)
+		// a second bulk through the same client: all stores healthy, all breakers closed, a live context. Whatever
+		// the first bulk left behind in the client (pooled status objects) must not leak into this one.
+		w.mu.Lock()
+		w.phase = 2
+		w.mu.Unlock()
+		vtime.SleepHook = func(time.Duration) {}
+		vrand.Quiet.Store(true)
+		for tier, n := range map[string]int{"bulk_hot": tp.HotShards, "bulk_write": tp.ColdShards} {
+			for s := 0; s < n; s++ {
+				circuitbreaker.New(fmt.Sprintf("%s-shard-%d", tier, s), breakerCfg).CloseCircuit()
+			}
+		}
+		err2 = c.StoreDocuments(context.Background(), 3, []byte("second-bulk-docs"), []byte("second-bulk-metas"))
+		vrand.Quiet.Store(false)
 		vtime.SleepHook = nil
 	}
 	_ = assign
@@ -151,11 +173,12 @@ func runC09(r *vlib.Run, tp topo, assign map[string]int) func() {
 		body()
 		_ = w
 		c09Judge(r, tp, w, err, payloadDocs, payloadMetas)
+		lastErr2 = err2
 	}
 }
 
 var lastWorld *bulkWorld
-var lastErr error
+var lastErr, lastErr2 error
 
 func c09Judge(r *vlib.Run, tp topo, w *bulkWorld, err error, docs, metas []byte) {
 	lastWorld, lastErr = w, err
@@ -169,7 +192,18 @@ func c09Check(r *vlib.Run, tp topo, assign map[string]int) {
 	okBy := map[string]bool{}
 	maxN := 0
 	var log []string
+	want2 := sha256.Sum256(append(append([]byte(fmt.Sprint(3, "|")), []byte("second-bulk-docs")...), []byte("second-bulk-metas")...))
+	want2P := fmt.Sprintf("%x", want2[:6])
+	ok2By := map[string]bool{}
+	var log2 []string
 	for _, c := range w.calls {
+		if c.Phase == 2 {
+			log2 = append(log2, fmt.Sprintf("%s#%d=%s", c.Host, c.N, c.Outcome))
+			if c.Payload == want2P && c.Outcome == "ok" {
+				ok2By[c.Host] = true
+			}
+			continue
+		}
 		log = append(log, fmt.Sprintf("%s#%d=%s", c.Host, c.N, c.Outcome))
 		if c.Payload != wantP {
 			r.Violation(fmt.Sprintf("%s: a store received a payload different from the request", tp), c09Case{tp, assign}, strings.Join(log, " "))
@@ -206,6 +240,30 @@ func c09Check(r *vlib.Run, tp topo, assign map[string]int) {
 		if !full("cold", tp.ColdShards, tp.ColdReplicas) {
 			r.Violation(fmt.Sprintf("%s: acknowledged without a fully written long-term shard", tp), cse, detail)
 		}
+	}
+	// the follow-up bulk: healthy stores => acknowledged, and acknowledged => a full replica set holds ITS payload
+	full2 := func(tier string, shards, replicas int) bool {
+		if shards == 0 {
+			return true
+		}
+		for s := 0; s < shards; s++ {
+			all := true
+			for rp := 0; rp < replicas; rp++ {
+				if !ok2By[fmt.Sprintf("%s-s%d-r%d", tier, s, rp)] {
+					all = false
+				}
+			}
+			if all {
+				return true
+			}
+		}
+		return false
+	}
+	detail2 := fmt.Sprintf("%s\nfollow-up bulk calls %v\nreturned err=%v", detail, log2, lastErr2)
+	if lastErr2 != nil {
+		r.Violation(fmt.Sprintf("%s: a bulk to healthy stores fails after an earlier bulk through the same client", tp), cse, detail2)
+	} else if !full2("hot", tp.HotShards, tp.HotReplicas) || !full2("cold", tp.ColdShards, tp.ColdReplicas) {
+		r.Violation(fmt.Sprintf("%s: the follow-up bulk is acknowledged without a full replica set holding it", tp), cse, detail2)
 	}
 	if maxN > consts.BulkMaxTries {
 		r.Violation(fmt.Sprintf("%s: a replica was called more than BulkMaxTries times", tp), cse, detail)
@@ -322,7 +380,7 @@ func TestVerifC09(t *testing.T) {
 	r.Sample(c09Case{topo{2, 2, 1, 1}, map[string]int{"bulk/hot-s0-r1/#1": 1, "breaker/bulk_hot/s1/attempt0": 1}})
 	ev := r.Get("evaluations")
 	r.Finish(t, "fault_enumeration",
-		fmt.Sprintf("topologies hot {1..3}x{1..3} x long-term {none,1x1,1x2,2x1,2x2}; environment events: every store call (ok / error / call deadline / request context cancelled during the call), every shard circuit breaker before every attempt (closed / open), every shard shuffle (all permutations); all assignments for topologies with <=2 hot replicas in total and <=1 long-term replica, at most %d deviations from the default answers beyond (one less for the largest); oracle on the recorded call log: acknowledged => a hot shard all of whose replicas have a successful call with exactly the payload, and the same for the long-term tier; no replica called more than BulkMaxTries times; all-default => acknowledged. distinct_nontrivial = distinct assignments with at least one deviation", bigBound),
+		fmt.Sprintf("topologies hot {1..3}x{1..3} x long-term {none,1x1,1x2,2x1,2x2}; environment events: every store call (ok / error / call deadline / request context cancelled during the call), every shard circuit breaker before every attempt (closed / open), every shard shuffle (all permutations); all assignments for topologies with <=2 hot replicas in total and <=1 long-term replica, at most %d deviations from the default answers beyond (one less for the largest); oracle on the recorded call log: acknowledged => a hot shard all of whose replicas have a successful call with exactly the payload, and the same for the long-term tier; no replica called more than BulkMaxTries times; all-default => acknowledged; after every explored bulk a second bulk is sent through the same client to healthy stores and must be acknowledged with a full replica set holding its own payload. distinct_nontrivial = distinct assignments with at least one deviation", bigBound),
 		map[string]any{
 			"states":                        r.DistinctCount("outcomes"),
 			"transitions":                   ev,
